@@ -948,6 +948,108 @@ func runC18(c *Ctx) {
 				Basis: "the allocation of the stored Lease lies on every path from one store to the next", Detail: "the Lease stored into the table is allocated outside the loop (" + al.Comment + " at " + c.P.Pos(al.Pos()) + "): every key inserted by the loop points at the same object, which ends up holding the last entry of the file"})
 		})
 	}
+	runC18ConfigFixpoint(c)
+}
+
+// runC18ConfigFixpoint: New keeps the loaded tables only if configChanged(configured, loaded) is false, and what is loaded
+// is what newSubnet stored from the configured values at the previous start. So every comparison of configChanged must
+// be false for (config, newSubnet(config).SubnetConfig): substituting, on the loaded side, each field by the expression
+// newSubnet stores into it gives the configured side again (modulo Masked∘Masked = Masked, Bits∘Masked = Bits). A field
+// that newSubnet normalises (masks, unmaps) and configChanged compares raw differs at every restart for a configuration
+// that is not already normalised, and the leases are dropped each time.
+func runC18ConfigFixpoint(c *Ctx) {
+	r := c.R
+	r.Rule("config-fixpoint", "configChanged is false between a configuration and what newSubnet stored from it", 4)
+	cc := c.P.Func(dhcpRel, "configChanged")
+	ns := c.P.Func(dhcpRel, "newSubnet")
+	if cc == nil || ns == nil {
+		r.Add(core.Obligation{Rule: "config-fixpoint", Key: "config-fixpoint functions", Status: core.Undecided, Detail: "configChanged or newSubnet not found"})
+		return
+	}
+	toArg0 := func(t string) string { return strings.ReplaceAll(t, "local(config)", "arg0") }
+	stored := map[string][]string{} // field -> stored expressions over arg0
+	reassigned := map[string]bool{} // config.F assigned inside newSubnet (defaults)
+	core.EachInstr(ns, func(i ssa.Instruction) {
+		st, ok := i.(*ssa.Store)
+		if !ok {
+			return
+		}
+		a := norm(st.Addr)
+		if f := strings.TrimPrefix(a, "local(subnet).SubnetConfig."); f != a {
+			stored[f] = append(stored[f], toArg0(norm(st.Val)))
+		}
+		if f := strings.TrimPrefix(a, "local(config)."); f != a {
+			reassigned[f] = true
+		}
+	})
+	simplify := func(t string) string {
+		for {
+			u := regexp.MustCompile(`\(net/netip\.Prefix\)\.Masked\(\(net/netip\.Prefix\)\.Masked\(([^()]*)\)\)`).ReplaceAllString(t, "(net/netip.Prefix).Masked($1)")
+			u = regexp.MustCompile(`\(net/netip\.Prefix\)\.Bits\(\(net/netip\.Prefix\)\.Masked\(([^()]*)\)\)`).ReplaceAllString(u, "(net/netip.Prefix).Bits($1)")
+			if u == t {
+				return t
+			}
+			t = u
+		}
+	}
+	fieldRe := regexp.MustCompile(`arg1\.([A-Za-z0-9_]+)`)
+	n := 0
+	core.EachInstr(cc, func(i ssa.Instruction) {
+		bo, ok := i.(*ssa.BinOp)
+		if !ok || bo.Op != token.NEQ {
+			return
+		}
+		tx := strings.ReplaceAll(strings.ReplaceAll(norm(bo.X), "local(config)", "arg0"), "local(current)", "arg1")
+		ty := strings.ReplaceAll(strings.ReplaceAll(norm(bo.Y), "local(config)", "arg0"), "local(current)", "arg1")
+		if strings.Contains(tx, "arg1") && strings.Contains(ty, "arg0") {
+			tx, ty = ty, tx
+		}
+		if !strings.Contains(tx, "arg0") || !strings.Contains(ty, "arg1") || strings.Contains(tx, "arg1") || strings.Contains(ty, "arg0") {
+			return
+		}
+		fields := fieldRe.FindAllStringSubmatch(ty, -1)
+		if len(fields) == 0 {
+			return
+		}
+		st, det := core.Proved, ""
+		sub := ty
+		for _, m := range fields {
+			f := m[1]
+			switch {
+			case len(stored[f]) != 1 || reassigned[f]:
+				// a field with a default: decidable only when the comparison is itself conditional on the configured value
+				cond := false
+				for _, g := range guardsOf(i) {
+					t := strings.ReplaceAll(g.Text, "local(config)", "arg0")
+					if strings.Contains(t, "arg0."+f) {
+						cond = true
+					}
+				}
+				if cond {
+					return // compared only when configured: the default is not a change (not decided further)
+				}
+				st, det = core.Violated, "newSubnet stores "+f+" in "+fmt.Sprint(len(stored[f]))+" places (a default) and configChanged compares it unconditionally"
+			default:
+				sub = strings.ReplaceAll(sub, "arg1."+f, stored[f][0])
+			}
+		}
+		if st == core.Proved && simplify(sub) != simplify(tx) {
+			st = core.Violated
+			det = "configChanged compares " + tx + " with " + ty + ", and newSubnet stores " + strings.Join(func() []string {
+				var o []string
+				for _, m := range fields {
+					o = append(o, m[1]+" = "+strings.Join(stored[m[1]], " | "))
+				}
+				return o
+			}(), ", ") + ": for a configuration on which the two differ (a prefix given as host address and length, an IPv4-mapped address) the loaded configuration never equals the configured one, and New drops the lease table at every restart"
+		}
+		n++
+		r.Add(core.Obligation{Rule: "config-fixpoint", Key: "config-fixpoint " + ty, Func: core.FuncName(cc), Pos: c.P.Pos(core.PosOf(i)), Status: st,
+			Basis: "loaded side with newSubnet's stored expressions substituted = configured side: " + simplify(sub), Detail: det})
+	})
+	if n == 0 {
+		r.Add(core.Obligation{Rule: "config-fixpoint", Key: "config-fixpoint comparisons", Func: core.FuncName(cc), Status: core.Undecided, Detail: "no comparison between the two configurations was recognised in configChanged"})
+	}
 }
 
 func sortedKeys(m map[string]bool) []string {
